@@ -449,6 +449,12 @@ class FCCKL(Entry):
 class FCCKLCE(FCCKL):
     name = 'f_cc_kl_ce'
 
+    def params(self, draw, rsp):
+        # lam >= 0.5 keeps exp(x / lam) finite for the generated x
+        return {'lam': draw(pos_scalars((1.0, 0.5, 2.0, 3.0, 10.0), 0.5,
+                                        20.0)),
+                'g': _opt_g(draw, rsp, positive=True)}
+
     def odl(self, space, p, n):
         return PO.proximal_convex_conj_kl_cross_entropy(
             space, lam=p['lam'], g=self.el(space, p.get('g'))), None
